@@ -30,6 +30,7 @@ func init() {
 			{Name: "counter-missed", File: "guidedremediation/internal/strategy/common/common.go", Old: "				go doPatch(append(r.VulnIDs, newlyAdded...)) // No need to clone r.VulnIDs here\n				toProcess++", New: "				go doPatch(append(r.VulnIDs, newlyAdded...)) // No need to clone r.VulnIDs here", Rule: "D4-fanout", Site: "ComputePatches"},
 			{Name: "no-dedupe", File: "guidedremediation/internal/strategy/common/common.go", Old: "	allResults = slices.CompactFunc(allResults, func(a, b result.Patch) bool { return cmpFn(a, b) == 0 })\n", New: "", Rule: "D4-fanout", Site: "sorted-compacted"},
 			{Name: "status-counter-unlocked", File: "extractor/filesystem/filesystem.go", Old: "	wc.statusMu.Lock()\n	wc.extractCalls++\n	wc.statusMu.Unlock()\n", New: "	wc.extractCalls++\n", Rule: "D1-lockset", Site: "extractCalls"},
+			{Name: "cache-cloned-after-unlock", File: "clients/datasource/cache.go", Old: "	rq.mu.Lock()\n	defer rq.mu.Unlock()\n\n	return maps.Clone(rq.cache)\n", New: "	rq.mu.Lock()\n	m := rq.cache\n	rq.mu.Unlock()\n\n	return maps.Clone(m)\n", Rule: "D1-lockset", Site: "GetMap"},
 		},
 	})
 }
@@ -235,6 +236,31 @@ func c16Lockset(p *Prog, r *Report) {
 				site := fmt.Sprintf("%s:%s.%s@%s", fnKey(fn), g.stype, g.field, accessKind(isWrite))
 				if held[in][want] {
 					r.OK("D1-lockset", site, p.Pos(fa.Pos()), "accessed with "+g.mutex+" held")
+					// a map / slice read from the guarded field is still the shared object: every use of
+					// the loaded reference (lookup, update, range, passing it to a call such as maps.Clone)
+					// must also happen with the mutex held
+					for _, ref := range *fa.Referrers() {
+						ld, isLd := ref.(*ssa.UnOp)
+						if !isLd || ld.Op != token.MUL {
+							continue
+						}
+						switch ld.Type().Underlying().(type) {
+						case *types.Map, *types.Slice:
+						default:
+							continue
+						}
+						for _, use := range *ld.Referrers() {
+							if _, isDbg := use.(*ssa.DebugRef); isDbg {
+								continue
+							}
+							usite := fmt.Sprintf("%s:%s.%s:use-of-loaded-reference", fnKey(fn), g.stype, g.field)
+							if held[use][want] {
+								r.OK("D1-lockset", usite, p.Pos(use.Pos()), "the shared "+g.field+" is used only inside the critical section")
+							} else {
+								r.Fail("D1-lockset", usite, p.Pos(use.Pos()), fmt.Sprintf("the reference read from %s.%s under %s is used after the lock was released (e.g. cloned or iterated outside the critical section): the map is read while another goroutine may be writing it", g.stype, g.field, g.mutex))
+							}
+						}
+					}
 				} else {
 					r.Fail("D1-lockset", site, p.Pos(fa.Pos()), fmt.Sprintf("%s.%s is %s without %s held on some path: a data race with the other goroutines that use it", g.stype, g.field, accessKind(isWrite), g.mutex))
 				}
